@@ -85,9 +85,14 @@ C11CountQ == FlattenSeq([i \in 1..Len(C11CntSlices) |->
                << Flt1(LCmp("==", CountOf(C11CntSlices[i]), ELit(JInt(1)))), Flt1(LCmp("==", CountOf(C11CntSlices[i]), ELit(JInt(2)))),
                   Flt1(LCmp(">=", CountOf(C11CntSlices[i]), ELit(JInt(3)))) >>])
              \o [i \in 1..Len(C11CntSlices) |-> Flt1(LCmp("==", EFn("value", <<ERel(<<Child(<<C11CntSlices[i]>>)>>)>>), ELit(JInt(1))))]    \* value(@[slice]) == 1
+IdxRun(is) == Child([k \in 1..Len(is) |-> SIndex(is[k])])
+C11RunQ == << <<IdxRun(<<3, 2, 1, 0>>)>>, <<IdxRun(<<5, 4, 3, 2, 1, 0>>)>>, <<IdxRun(<<0, 3, 2, 1, 0, 0>>)>>, <<IdxRun(<<0, 1, 2, 3>>)>>, <<IdxRun(<<4, 3, 2, 1>>)>>,
+             <<IdxRun(<<2, 1, 0, -1>>)>>, <<IdxRun(<<-1, -2, -3, -4>>)>>, <<IdxRun(<<1, 2, 3, 4, 5, 6, 7, 8>>)>>, <<IdxRun(<<0, 0, 0, 0>>)>>,
+             <<Child(<<SIndex(2), SIndex(1), SIndex(0), SSlice(ABSENT, ABSENT, -1)>>)>> >>        \* (one input node each: several would re-find D1)
 C11Queries == [i \in 1..Len(C11Sels) |-> <<Child(<<C11Sels[i]>>)>>]
               \o [i \in 1..Len(C11Sels) |-> <<Desc(<<C11Sels[i]>>)>>]       \* the same under ..
               \o [i \in 1..Len(C11Idx) |-> <<Child(<<SWild>>), Child(<<C11Idx[i]>>)>>]
+              \o C11RunQ                                                    \* (on every document)
               \o C11CountQ                                                  \* (always the LAST queries; on C11CountDoc only)
 C11Stride == IF Thorough THEN 1 ELSE 3
 
@@ -96,7 +101,7 @@ C03Alpha == <<97, 32, 39, 34, 92, 47, 1, 10, 233, 128512>>       \* a SP ' " \ /
 C03Names == DedupSeq(TuplesOf(C03Alpha, 1) \o TuplesOf(C03Alpha, 2)
             \o << <<39, 120, 39>>, <<34, 120, 34>>, <<48>>, <<>>, <<8>>, <<12>>, <<13>>, <<9>>, <<11>>, <<31>>, <<127>>,
                   <<97, 39, 98>>, <<92, 110>>, <<92, 92>>, <<36>>, <<91, 48, 93>>,
-                  <<133>>, <<97, 133, 98>>, <<128>>, <<159>>, <<160>>, <<8232>>, <<65535>>, <<1114111>>, <<55295>>, <<57344>>, <<93, 46, 91>> >>)   \* C1 controls, NBSP, LS, range ends
+                  <<38>>, <<97, 38, 98>>, <<91, 42, 93>>, <<97, 91, 63, 98, 93>>, <<35>>, <<37>>, <<33>>, <<133>>, <<97, 133, 98>>, <<128>>, <<159>>, <<160>>, <<8232>>, <<65535>>, <<1114111>>, <<55295>>, <<57344>>, <<93, 46, 91>> >>)   \* C1 controls, NBSP, LS, range ends
 C03Inner == <<JInt(1), JArr(<<JInt(1), JInt(2), JInt(3)>>), JObj(<<cA>>, <<JInt(1)>>)>>
 \* one odd-named member at depth 1, and the same below a plain member / inside an array
 C03Docs == FlattenSeq([i \in 1..Len(C03Names) |->
@@ -112,7 +117,7 @@ C03NameRoutes == [i \in 1..Len(C03Names) |-> <<N1(C03Names[i])>>]
 C03Routes == << <<Child(<<SWild>>)>>, <<Desc(<<SWild>>)>>, <<Child(<<SWild>>), Child(<<SWild>>)>>,
                 <<Child(<<SFilter(LCmp("==", ERel(<<>>), ELit(JInt(1))))>>)>>,
                 <<Desc(<<SFilter(LTest(FALSE, ERel(<<>>)))>>)>>,
-                <<Desc(<<SIndex(-1)>>)>>, <<Desc(<<SIndex(0)>>)>>, <<Desc(<<SSlice(ABSENT, ABSENT, -1)>>)>>,
+                <<Child(<<SIndex(0)>>)>>, <<Child(<<SName(cA)>>), Child(<<SIndex(0)>>)>>, <<Child(<<SIndex(1)>>), Child(<<SName(<<48>>)>>)>>, <<Desc(<<SIndex(-1)>>)>>, <<Desc(<<SIndex(0)>>)>>, <<Desc(<<SSlice(ABSENT, ABSENT, -1)>>)>>,
                 <<Desc(<<SSlice(1, ABSENT, ABSENT)>>)>>, <<Child(<<SWild>>), Child(<<SIndex(-2), SIndex(0)>>)>>,
                 <<Desc(<<SWild, SIndex(-1)>>)>>, <<Child(<<SSlice(7, ABSENT, -2)>>)>>, <<Child(<<SSlice(-1, -9, -1)>>)>>, <<Child(<<SSlice(-9, 9, 2)>>)>>,
                 <<Desc(<<SIndex(100)>>)>>, <<Desc(<<SSlice(98, 102, ABSENT)>>)>>, <<Desc(<<SIndex(-3), SIndex(99)>>)>>, <<Desc(<<SSlice(ABSENT, 97, -1)>>)>>,
@@ -133,14 +138,17 @@ C04Prims == <<JNull, JBool(TRUE), JBool(FALSE), JInt(0), F(0, 0), JInt(1), F(1, 
               JNum(1, 19, FALSE), F(1, 19), JNum(9, 18, FALSE),          \* 10^19 (beyond i64: stored as u64), 1e19, 9*10^18
               JStr(<<>>), JStr(cA), JStr(cB), JStr(<<65>>), JStr(<<233>>), JStr(<<128512>>), JStr(<<97, 98>>),
               JStr(<<49>>), JStr(<<97, 0>>), JStr(<<65535>>), JStr(<<57344>>), JStr(<<65536>>), JStr(<<97, 65535>>), JStr(<<97, 128512>>)>>       \* BMP end / supplementary plane: code point order differs from UTF-16 order
-C04Structs == <<JArr(<<>>), JArr(<<JInt(1)>>), JArr(<<F(1, 0)>>), JArr(<<JInt(1), JInt(2)>>), JArr(<<JArr(<<JInt(1)>>)>>),
+nQk == <<39, 107, 39>>   nDQk == <<34, 107, 34>>
+C04Structs == <<Obj1(nQk, JInt(1)), JObj(<<nQk, cK>>, <<JInt(1), JInt(1)>>), JObj(<<nQk, cK>>, <<JInt(2), JInt(1)>>), Obj1(nDQk, JInt(1)), JObj(<<nDQk, cK>>, <<JInt(2), JInt(1)>>),
+                JArr(<<>>), JArr(<<JInt(1)>>), JArr(<<F(1, 0)>>), JArr(<<JInt(1), JInt(2)>>), JArr(<<JArr(<<JInt(1)>>)>>),
                 JObj(<<>>, <<>>), Obj1(cA, JInt(1)), Obj1(cA, F(1, 0)), JObj(<<cA, cB>>, <<JInt(1), JInt(2)>>),
                 JArr(<<JNull>>), Obj1(cA, JNull)>>
 NegZero == JNum(0, 0 - 999, TRUE)             \* stored as the float -0.0 (harness), mathematically 0
 C04Vals == C04Prims \o C04Structs \o <<NegZero, NOTHING>>
 C04ValsQ == <<JNull, JBool(TRUE), JInt(0), JInt(1), F(1, 0), F(15, -1), F(1, -20), JInt(100), F(1, 2), JNum(1, 19, FALSE), F(1, 19),
               JStr(<<>>), JStr(cA), JStr(cB), JStr(<<233>>), JStr(<<128512>>), JStr(<<65535>>),
-              JArr(<<>>), JArr(<<JInt(1)>>), JArr(<<F(1, 0)>>), JObj(<<>>, <<>>), Obj1(cA, JInt(1)), Obj1(cA, F(1, 0)), NegZero, NOTHING>>
+              JArr(<<>>), JArr(<<JInt(1)>>), JArr(<<F(1, 0)>>), JObj(<<>>, <<>>), Obj1(cA, JInt(1)), Obj1(cA, F(1, 0)), NegZero, NOTHING,
+              Obj1(nQk, JInt(1)), JObj(<<nQk, cK>>, <<JInt(1), JInt(1)>>), JObj(<<nQk, cK>>, <<JInt(2), JInt(1)>>)>>
 C04V == IF Thorough THEN C04Vals ELSE C04ValsQ
 \* children {x: v1, y: v2} for all pairs, in chunks
 C04Children == Cross2(C04V, C04V, LAMBDA v, w : ObjOpt(<<cX, cY>>, <<v, w>>))
@@ -157,7 +165,12 @@ LongE(i) == CASE i % 5 = 0 -> 0 - 17 [] i % 5 = 1 -> 0 - 20 [] i % 5 = 2 -> 0 - 
 LongNum(i) == JNumX(LongM(i), LongXs(i), LongE(i), TRUE)
 C04LongDoc == JArr([i \in 1..C04LongN |-> Obj1(cX, LongNum(i))])
 C04LongQ == FlattenSeq([i \in 1..C04LongN |-> << Flt1(LCmp("==", RelN(cX), ELit(LongNum(i)))), Flt1(LCmp("<", ELit(LongNum(i)), RelN(cX))) >>])
-C04Docs == C04ChunkDocs \o <<C04Single, C04LongDoc>>
+\* an index step inside a comparison operand applies to arrays only (never to a member named "0" or "1")
+C04IdxDoc == JArr(<<Obj1(<<48>>, JStr(cX)), JArr(<<JStr(cX)>>), JObj(<<<<49>>, cA>>, <<JInt(5), JInt(5)>>), JArr(<<JInt(1), JInt(5)>>), JStr(cX), JObj(<<<<45, 49>>>>, <<JStr(cX)>>)>>)
+C04IdxQ == << Flt1(LCmp("==", ERel(<<I1(0)>>), ELit(JStr(cX)))), Flt1(LCmp("==", ERel(<<I1(1)>>), ELit(JInt(5)))), Flt1(LCmp("!=", ERel(<<I1(0)>>), ELit(JStr(cX)))),
+              Flt1(LCmp("==", ERel(<<I1(-1)>>), ELit(JStr(cX)))), Flt1(LCmp("==", ERel(<<>>), EAbs(<<I1(1), I1(0)>>))), Flt1(LCmp("==", EAbs(<<I1(0), I1(0)>>), ERel(<<I1(0)>>))),
+              Flt1(LCmp("<=", ERel(<<I1(1)>>), EAbs(<<I1(2), I1(1)>>))), Flt1(LCmp("==", ERel(<<N1(<<48>>)>>), ERel(<<I1(0)>>))) >>
+C04Docs == C04ChunkDocs \o <<C04Single, C04LongDoc, C04IdxDoc>>
 C04PairQ == [o \in 1..6 |-> Flt1(LCmp(CmpOps[o], RelN(cX), RelN(cY)))]
             \o [o \in 1..6 |-> Flt1(LCmp(CmpOps[o], EFn("value", <<RelN(cX)>>), RelN(cY)))]
             \o [o \in 1..6 |-> Flt1(LCmp(CmpOps[o], RelN(cX), AbsIdxN(0, cY)))]        \* $-rooted operand
@@ -168,10 +181,11 @@ C04LitQ == FlattenSeq([l \in 1..Len(C04Lits) |-> FlattenSeq([o \in 1..6 |->
                                            Flt1(LCmp(CmpOps[o], EFn("count", <<ERel(<<N1(cX), Child(<<SWild>>)>>)>>), ELit(F(1, 0)))),
                                            Flt1(LCmp(CmpOps[o], ELit(JInt(1)), ELit(F(1, 0)))),
                                            Flt1(LCmp(CmpOps[o], ELit(JStr(cA)), ELit(JStr(cB)))) >>])
-C04Queries == C04PairQ \o C04LitQ \o C04LongQ
+C04Queries == C04PairQ \o C04LitQ \o C04LongQ \o C04IdxQ
 \* pair queries on pair chunks, literal queries on the single-operand document, long-mantissa queries on theirs
 C04Pick(d, q) == IF q <= Len(C04PairQ) THEN d <= Len(C04ChunkDocs)
-                 ELSE IF q <= Len(C04PairQ) + Len(C04LitQ) THEN d = Len(C04ChunkDocs) + 1 ELSE d = Len(C04ChunkDocs) + 2
+                 ELSE IF q <= Len(C04PairQ) + Len(C04LitQ) THEN d = Len(C04ChunkDocs) + 1
+                 ELSE IF q <= Len(C04PairQ) + Len(C04LitQ) + Len(C04LongQ) THEN d = Len(C04ChunkDocs) + 2 ELSE d = Len(C04ChunkDocs) + 3
 ASSUME \A i, k \in 1..C04LongN : i # k => LongM(i) # LongM(k)
 
 (* ---------- C05: filter logic, existence, scoping ---------------------------- *)
@@ -180,12 +194,15 @@ NestF(n) == IF n = 0 THEN LTest(FALSE, RelN(cA)) ELSE LTest(FALSE, ERel(<<Child(
 RECURSIVE NestArr(_)
 NestArr(n) == IF n = 0 THEN Obj1(cA, JInt(1)) ELSE JArr(<<NestArr(n - 1), JInt(n)>>)
 C05DeepDoc == NestArr(42)
+nAB2 == <<97, 98>>   nA1 == <<97, 49>>
 C05AVals == <<NOTHING, JInt(1), JNull, JBool(FALSE), JStr(<<>>)>>
 C05BVals == <<NOTHING, JArr(<<>>), JObj(<<>>, <<>>), JInt(0)>>
 C05CVals == <<NOTHING, JInt(1), JInt(2)>>
 C05Kids == FlattenSeq([a \in 1..Len(C05AVals) |-> FlattenSeq([b \in 1..Len(C05BVals) |->
               [c \in 1..Len(C05CVals) |-> ObjOpt(<<cA, cB, cC>>, <<C05AVals[a], C05BVals[b], C05CVals[c]>>)]])])
-C05Extra == <<JInt(1), JNull, JArr(<<>>), JArr(<<Obj1(cB, JInt(1))>>), JArr(<<Obj1(cA, JInt(1)), JInt(2)>>), Obj1(cX, Obj1(cB, JNull))>>
+C05Extra == <<JArr(<<JInt(2), Obj1(cA, JInt(1))>>), JObj(<<cX, <<121>>>>, <<JInt(1), Obj1(cA, JNull)>>), JObj(<<cA, cX>>, <<JInt(1), Obj1(cB, JInt(2))>>), JArr(<<JArr(<<>>), JArr(<<JInt(1), Obj1(cB, JInt(1))>>)>>),
+              JArr(<<Obj1(cB, JInt(0)), Obj1(cA, JInt(0))>>), Obj1(nAB2, JInt(1)), Obj1(cA, Obj1(cB, JNull)), Obj1(nA1, JBool(FALSE)), Obj1(cA, JArr(<<JInt(0), JNull>>)), JArr(<<JInt(1), JInt(2)>>), JArr(<<JInt(1)>>),
+              JInt(1), JNull, JArr(<<>>), JArr(<<Obj1(cB, JInt(1))>>), JArr(<<Obj1(cA, JInt(1)), JInt(2)>>), Obj1(cX, Obj1(cB, JNull))>>
 \* long chains of alternatives (a query as large as hand-written "IN lists"): children whose c is an integer, the same number
 \* written as a float, a near miss, a string of the digit, missing
 C05ChainVals == <<JInt(1), JInt(2), F(2, 0), F(20, -1), JInt(7), F(7, 0), F(25, -1), JInt(8), JInt(9), JInt(12), F(12, 0), JStr(<<50>>), NOTHING, JNull, JInt(0), JArr(<<JInt(2)>>)>>
@@ -217,6 +234,21 @@ TEq == LCmp("==", RelN(cA), RelN(cX))                              \* @.a == @.x
 TLe == LCmp("<=", RelN(cX), EAbs(<<N1(cX)>>))                      \* @.x <= $.x
 TNLt == LParen(TRUE, LCmp("<", RelN(cA), ELit(JInt(5))))           \* !(@.a < 5)    operands that are not comparable
 TNGe == LParen(TRUE, LCmp(">=", RelN(cA), RelN(cC)))               \* !(@.a >= @.c)
+TAB == LTest(FALSE, RelN(nAB2))                                    \* @.ab
+TAdB == LTest(FALSE, ERel(<<N1(cA), N1(cB)>>))                      \* @.a.b
+TA1 == LTest(FALSE, RelN(nA1))                                     \* @.a1
+TAi1 == LTest(FALSE, ERel(<<N1(cA), Child(<<SIndex(1)>>)>>))         \* @.a[1]
+TS1 == LTest(FALSE, ERel(<<Child(<<SSlice(1, ABSENT, ABSENT)>>)>>))  \* @[1:]
+TS10 == LTest(FALSE, ERel(<<Child(<<SSlice(1, 0, ABSENT)>>)>>))      \* @[1:0]
+TWA == LTest(FALSE, ERel(<<Child(<<SWild>>), N1(cA)>>))                       \* @.*.a
+TWB == LTest(FALSE, ERel(<<Child(<<SWild>>), N1(cB)>>))                       \* @[*].b
+TUA == LTest(FALSE, ERel(<<Child(<<SName(cX), SName(cA)>>), N1(cB)>>))         \* @['x','a'].b
+TDA == LTest(FALSE, ERel(<<Desc(<<SWild>>), N1(cA)>>))                        \* @..*.a
+NWA == LTest(TRUE, ERel(<<Child(<<SWild>>), N1(cA)>>))                        \* !@.*.a
+TW2 == LTest(FALSE, ERel(<<Child(<<SWild>>), Child(<<SWild>>), N1(cB)>>))      \* @.*.*.b
+C05Branchy == <<TWA, TWB, TUA, TDA, NWA, TW2, LAnd(<<TWA, TWB>>), LOr(<<NWA, TUA>>)>>
+C05LookAlike == << LOr(<<TAB, TAdB>>), LOr(<<TAdB, TAB>>), LAnd(<<TAB, TAdB>>), LOr(<<TA1, TAi1>>), LOr(<<TAi1, TA1>>), LAnd(<<TAi1, TA1>>),
+                   LOr(<<TS10, TS1>>), LAnd(<<TS1, TS10>>), LOr(<<TAB, TAB, TAdB>>), LAnd(<<LParen(TRUE, TAB), TAdB>>), LOr(<<TA, TA>>), LAnd(<<TA, TA, TB>>) >>
 C05Atoms == <<TA, TB, TC, NA, TK, TW, TN, TN2, TEq, TLe, TNLt, TNGe>>
 C05AtomsT == C05Atoms \o <<NB, TNN, LCmp("!=", RelN(cA), RelN(cC)), LTest(FALSE, EAbs(<<N1(cK)>>)), LTest(TRUE, EAbs(<<N1(cX)>>))>>
 C05A == IF Thorough THEN C05AtomsT ELSE C05Atoms
@@ -236,11 +268,17 @@ C05GroupOps == FlattenSeq(Cross2(C05Group, <<TA, NA>>, LAMBDA grp, z :
 C05NegOr == Cross2(C05A, C05A, LAMBDA x, y : LParen(TRUE, LOr(<<x, y>>)))                                                  \* !(a || b)
 C05DblNeg == [i \in 1..Len(C05A) |-> LParen(TRUE, LParen(TRUE, C05A[i]))]                                                   \* !(!(a))
 C05Deep == Cross2(C05Core, C05Core, LAMBDA x, y : LParen(TRUE, LOr(<<LParen(TRUE, LAnd(<<x, y>>)), LParen(FALSE, LParen(TRUE, y))>>)))
-C05Lx == C05A \o C05GroupOps \o C05And2 \o C05Or2 \o C05And3 \o C05OrAnd \o C05AndOr \o C05ParOr \o C05NegPar \o C05NegOr \o C05DblNeg \o C05Deep
+C05Lx == C05A \o C05LookAlike \o C05Branchy \o C05GroupOps \o C05And2 \o C05Or2 \o C05And3 \o C05OrAnd \o C05AndOr \o C05ParOr \o C05NegPar \o C05NegOr \o C05DblNeg \o C05Deep
+\* a filter selector that receives the SAME node several times keeps its children each time (a nodelist is not a set)
+C05DupQ == << <<Child(<<SName(cL), SName(cL)>>), Child(<<SFilter(TA)>>)>>, <<Child(<<SName(cL), SName(cK), SName(cL)>>), Child(<<SFilter(NA)>>)>>,
+              <<Child(<<SIndex(0), SIndex(0)>>), Child(<<SFilter(TB)>>)>>, <<Child(<<SIndex(1), SIndex(-5)>>), Child(<<SFilter(LCmp(">", ERel(<<>>), ELit(JInt(0))))>>)>>,
+              <<Child(<<SWild, SIndex(1)>>), Child(<<SFilter(LTest(FALSE, ERel(<<>>)))>>)>>, <<Child(<<SWild, SWild>>), Child(<<SFilter(TA)>>)>>,
+              Flt1(LCmp("==", EFn("count", <<ERel(<<Child(<<SName(cA), SName(cA)>>), Child(<<SFilter(LTest(FALSE, ERel(<<>>)))>>)>>)>>), ELit(JInt(2)))) >>
 C05DeepQ == << <<Child(<<SFilter(NestF(34))>>)>>, <<Child(<<SFilter(NestF(40))>>)>>, <<Child(<<SFilter(NestF(41))>>)>>, <<Desc(<<SFilter(NestF(33))>>)>> >>
 C05Queries == C05DeepQ \o [i \in 1..Len(C05Lx) |-> <<N1(cL), Child(<<SFilter(C05Lx[i])>>)>>]        \* $.l[?lx]
               \o [i \in 1..Len(C05A) |-> <<Desc(<<SFilter(C05A[i])>>)>>]                \* $..[?atom]
               \o [i \in 1..Len(C05A) |-> <<Child(<<SFilter(C05A[i])>>)>>]               \* $[?atom]
+              \o C05DupQ
               \o [i \in 1..Len(C05ChainLx) |-> <<N1(cL), Child(<<SFilter(C05ChainLx[i])>>)>>]   \* $.l[?c == 1 || c == 2 || ...]   (always the LAST queries)
 C05Stride == IF Thorough THEN 1 ELSE 2
 
@@ -339,8 +377,14 @@ C14Ls == SubSeq(C14Arrs, 1, Min2(Len(C14Arrs), IF Thorough THEN 200 ELSE 31)) \o
 C14Children == Cross2(C14X, C14Ls, LAMBDA x, l : ObjOpt(<<cL, cX>>, <<l, x>>))
 C14Fns == <<"in", "nin", "none_of", "any_of", "subset_of">>
 \* integer needles never meet an equal-valued float (and vice versa): the property does not say which equality decides 2 vs 2.0
-C14LitDoc == JArr(<<Obj1(cL, JArr(<<F(2, 0), JStr(cA)>>)), Obj1(cL, JArr(<<F(7, 0), JStr(cB)>>)), Obj1(cL, JArr(<<F(25, -1)>>)), Obj1(cL, JArr(<<>>)), Obj1(cX, JInt(1))>>)
-C14LitQ == FlattenSeq([f \in 1..2 |-> << Flt1(LTest(FALSE, EFn(C14Fns[f], <<ELit(F(2, 0)), RelN(cL)>>))), Flt1(LTest(FALSE, EFn(C14Fns[f], <<ELit(JInt(3)), RelN(cL)>>))),
+nSp == <<97, 32, 98>>   nNoSp == <<97, 98>>   nSp2 == <<97, 32, 32, 98>>
+C14LitDoc == JArr(<<JObj(<<nSp, nNoSp, cL>>, <<JArr(<<JInt(1)>>), JArr(<<JInt(2)>>), JArr(<<JStr(nSp), JInt(5)>>)>>), JObj(<<nSp, nNoSp, cL>>, <<JArr(<<JInt(2)>>), JArr(<<JInt(1)>>), JArr(<<JStr(nNoSp), JInt(6)>>)>>),      \* (no integer equal to a float needle)
+                    Obj1(cL, JArr(<<F(2, 0), JStr(cA)>>)), Obj1(cL, JArr(<<F(7, 0), JStr(cB)>>)), Obj1(cL, JArr(<<F(25, -1)>>)), Obj1(cL, JArr(<<>>)), Obj1(cX, JInt(1))>>)
+C14LitQ == FlattenSeq([f \in 1..5 |-> << Flt1(LTest(FALSE, EFn(C14Fns[f], <<ELit(JStr(nSp)), RelN(cL)>>))), Flt1(LTest(FALSE, EFn(C14Fns[f], <<ELit(JStr(nNoSp)), RelN(cL)>>))),
+                                         Flt1(LTest(FALSE, EFn(C14Fns[f], <<ELit(JStr(nSp2)), RelN(cL)>>))),
+                                         Flt1(LTest(FALSE, EFn(C14Fns[f], <<ELit(JInt(1)), ERel(<<N1(nSp)>>)>>))), Flt1(LTest(FALSE, EFn(C14Fns[f], <<ELit(JInt(1)), ERel(<<N1(nNoSp)>>)>>))),
+                                         Flt1(LTest(FALSE, EFn(C14Fns[f], <<ERel(<<N1(nSp)>>), ERel(<<N1(nNoSp)>>)>>))), Flt1(LTest(FALSE, EFn(C14Fns[f], <<ERel(<<N1(nNoSp)>>), ERel(<<N1(nSp)>>)>>))) >>])
+           \o FlattenSeq([f \in 1..2 |-> << Flt1(LTest(FALSE, EFn(C14Fns[f], <<ELit(F(2, 0)), RelN(cL)>>))), Flt1(LTest(FALSE, EFn(C14Fns[f], <<ELit(JInt(3)), RelN(cL)>>))),
                                          Flt1(LTest(FALSE, EFn(C14Fns[f], <<ELit(F(25, -1)), RelN(cL)>>))), Flt1(LTest(FALSE, EFn(C14Fns[f], <<ELit(JStr(cA)), RelN(cL)>>))) >>])
 C14Docs == (LET ch == Chunks(C14Children, 60) IN [i \in 1..Len(ch) |-> JArr(ch[i])]) \o <<C14LitDoc>>
 C14Queries == FlattenSeq([f \in 1..5 |->
@@ -349,6 +393,9 @@ C14Queries == FlattenSeq([f \in 1..5 |->
                    Flt1(LTest(FALSE, EFn(C14Fns[f], <<RelN(cX), AbsIdxN(0, cL)>>))),
                    Flt1(LAnd(<<LTest(FALSE, EFn(C14Fns[f], <<RelN(cX), RelN(cL)>>)), LTest(FALSE, RelN(cX))>>)),
                    \* arguments given as NON-singular queries that select at most one node ('zz' is nowhere): the argument is that node
+                   Flt1(LTest(FALSE, EFn(C14Fns[f], <<EFn("value", <<RelN(cX)>>), AbsIdxN(0, cL)>>))),                                 \* fn(value(@.x), $[0].l)   the only @ is inside the inner call
+                   Flt1(LTest(FALSE, EFn(C14Fns[f], <<EFn("length", <<RelN(cX)>>), AbsIdxN(1, cL)>>))),                                \* fn(length(@.x), $[1].l)
+                   Flt1(LTest(TRUE, EFn(C14Fns[f], <<EFn("count", <<ERel(<<N1(cX), Child(<<SWild>>)>>)>>), AbsIdxN(2, cL)>>))),         \* !fn(count(@.x.*), $[2].l)
                    Flt1(LTest(FALSE, EFn(C14Fns[f], <<RelN(cX), ERel(<<Child(<<SName(cL), SName(<<122, 122>>)>>)>>)>>))),            \* fn(@.x, @['l','zz'])
                    Flt1(LTest(TRUE, EFn(C14Fns[f], <<ERel(<<Child(<<SName(<<122, 122>>), SName(cX)>>)>>), RelN(cL)>>))),             \* !fn(@['zz','x'], @.l)
                    Flt1(LTest(FALSE, EFn(C14Fns[f], <<RelN(cX), EAbs(<<Child(<<SSlice(0, 1, ABSENT)>>), N1(cL)>>)>>))),               \* fn(@.x, $[0:1].l)
@@ -371,7 +418,10 @@ C15Sels == <<SWild, SName(cA), SName(cB), SIndex(0), SFilter(LCmp(">", ERel(<<>>
              SFilter(LCmp("==", RelN(cA), ELit(JInt(1)))), SSlice(ABSENT, ABSENT, -1),
              SFilter(LCmp("==", RelN(cX), RelN(cY))), SFilter(LCmp("!=", RelN(cX), RelN(cY))), SFilter(LCmp("<=", RelN(cY), RelN(cX)))>>
 C15Segs == [i \in 1..Len(C15Sels) |-> Child(<<C15Sels[i]>>)] \o [i \in 1..Len(C15Sels) |-> Desc(<<C15Sels[i]>>)]
-C15Queries == TuplesUpTo(C15Segs, IF Thorough THEN 3 ELSE 2)
+Names16 == [k \in 1..18 |-> SName(<<97 + ((k * 7) % 17)>>)]               \* h o e l b i p f m c j q g n d k a h : 18 selectors, one name twice
+C15ManyQ == << <<I1(0), N1(cX), Child(Names16)>>, <<I1(1), N1(cY), Child(Names16)>>, <<I1(0), N1(cY), Child(SubSeq(Names16, 1, 16))>>,
+               <<I1(2), N1(cX), Child(SubSeq(Names16, 2, 16))>> >>                                   \* (one input node each: several would re-find D1)
+C15Queries == TuplesUpTo(C15Segs, IF Thorough THEN 3 ELSE 2) \o C15ManyQ
 
 (* ---------- C01D: deeply nested documents (beyond serde_json's parser limit of 128) ----------- *)
 RECURSIVE NestDoc(_, _)
@@ -379,8 +429,15 @@ NestDoc(kind, n) == IF n = 0 THEN JInt(1)
                     ELSE IF kind = "obj" \/ (kind = "mix" /\ n % 2 = 0) THEN JObj(<<cA>>, <<NestDoc(kind, n - 1)>>)
                     ELSE JArr(<<NestDoc(kind, n - 1)>>)
 C01DDepth == IF Thorough THEN 300 ELSE 133
-C01DDocs == <<NestDoc("arr", C01DDepth), NestDoc("obj", C01DDepth), NestDoc("mix", C01DDepth)>>
-C01DQueries == << <<Desc(<<SWild>>)>>, <<Desc(<<SIndex(-1), SName(cA)>>)>>, <<Desc(<<SFilter(LTest(FALSE, ERel(<<>>)))>>)>> >>
+cV == <<118>>
+Bushy == JObj(<<cA, cB, cV>>, <<JObj(<<cA, cB, cV>>, <<JArr(<<JObj(<<cV>>, <<JInt(1)>>), JInt(2)>>), JObj(<<cV>>, <<JInt(3)>>), JInt(4)>>),
+                               JArr(<<JObj(<<cA, cV>>, <<JArr(<<JInt(5)>>), JInt(6)>>), JArr(<<JObj(<<cV>>, <<JInt(7)>>)>>)>>), JInt(8)>>)
+RECURSIVE NestOver(_, _, _)
+NestOver(kind, n, leaf) == IF n = 0 THEN leaf
+                           ELSE IF kind = "obj" \/ (kind = "mix" /\ n % 2 = 0) THEN JObj(<<cA>>, <<NestOver(kind, n - 1, leaf)>>)
+                           ELSE JArr(<<NestOver(kind, n - 1, leaf)>>)
+C01DDocs == <<NestDoc("arr", C01DDepth), NestDoc("obj", C01DDepth), NestDoc("mix", C01DDepth), NestOver("mix", C01DDepth, Bushy), NestOver("obj", 126, Bushy)>>
+C01DQueries == << <<Desc(<<SWild>>)>>, <<Desc(<<SIndex(-1), SName(cA)>>)>>, <<Desc(<<SFilter(LTest(FALSE, ERel(<<>>)))>>)>>, <<Desc(<<SName(cV)>>)>> >>
                 \o (IF Thorough THEN << <<Desc(<<SIndex(0)>>)>>, <<Desc(<<SName(cA)>>)>>, <<Desc(<<SSlice(ABSENT, ABSENT, -1)>>)>> >> ELSE <<>>)
 
 (* ---------- C09D: very deep documents whose Normalized Paths have hundreds of steps (run with Evaluator_light.cfg) ---- *)
@@ -399,6 +456,7 @@ Pick(d, q) == CASE Univ = "C03" -> C03Pick(d, q)
                 [] Univ = "C10" -> C10Pick(d, q)
                 [] Univ = "C14" -> IF q > Len(C14Queries) - Len(C14LitQ) THEN d = Len(C14Docs) ELSE d < Len(C14Docs)
                 [] Univ = "C05" -> IF q <= Len(C05DeepQ) THEN d = 4 ELSE IF q > Len(C05Queries) - Len(C05ChainLx) THEN d = 5 ELSE d <= 3 /\ Stride(StrideN, d, q)
-                [] Univ = "C11" -> IF q > Len(C11Queries) - Len(C11CountQ) THEN d = Len(C11Docs) ELSE d < Len(C11Docs) /\ Stride(StrideN, d, q)
+                [] Univ = "C11" -> IF q > Len(C11Queries) - Len(C11CountQ) THEN d = Len(C11Docs)
+                                   ELSE IF q > Len(C11Queries) - Len(C11CountQ) - Len(C11RunQ) THEN TRUE ELSE d < Len(C11Docs) /\ Stride(StrideN, d, q)
                 [] OTHER -> Stride(StrideN, d, q)
 =============================================================================
